@@ -50,7 +50,7 @@ func buildCase(phase string, i int) (c Case, key string, sample bool) {
 		return corpus[i], fmt.Sprintf("corpus-%d", i), i < 2
 	case "titles":
 		c = titleCase(i)
-		return c, c.Pushes[0].Kind + "|" + c.Pushes[0].Title, i%2500 == 7
+		return c, c.Prepop + "|" + c.Pushes[0].Kind + "|" + c.Pushes[0].Title, i%5000 == 14
 	case "exh":
 		seq := exhSeq(i)
 		c = Case{Prepop: "d", Pushes: []Push{{Kind: "archive", Title: "pkg", Entries: seqEntries(seq)}}}
@@ -110,9 +110,9 @@ func main() {
 		return
 	}
 	r := evidence.New("C11", "exploration")
-	r.Rule("case = (pre-population of the working directory ∈ {empty, d, ds, sub, full}: files, directories, inside-pointing symlinks only; 1..n pushes into ONE default-options file.Store: " +
+	r.Rule("case = (pre-population of the working directory ∈ {absent, empty, d, ds, sub, full}: files, directories, inside-pointing symlinks only; 1..n pushes into ONE default-options file.Store: " +
 		"tar+gzip blob marked for unpacking with a sequence of regular/dir/symlink/hard-link/fifo entries, named blob, or manifest that restores a titled layer); " +
-		"phases: corpus (committed witnesses), titles (all segment sequences over {.., ., \"\", x, in, up, wd} × {relative, $WD/…, $ROOT/a/…} × {blob, archive}), " +
+		"phases: corpus (committed witnesses), titles (all segment sequences over {.., ., \"\", x, in, up, wd} × {relative, $WD/…, $ROOT/a/…} × {blob, archive} × {pre-populated, not yet existing working directory}), " +
 		"exh (ALL sequences over the 24-entry reduced vocabulary up to length 3 quick / 4 thorough), rand (random and corpus-mutated sequences ≤ 10 entries over the full grammar), " +
 		"multi (all vocabulary sequences ≤ 2 quick / ≤ 3 thorough each followed by 13 follow-up pushes, then random multi-push cases); " +
 		"oracle per push: snapshot of everything in the sandbox outside the working directory (type, permission bits, size+SHA-256, link target; TMPDIR may only gain oras_file_*) is unchanged, " +
